@@ -28,7 +28,7 @@ def build_harness(chk, scratch):
 
 
 def build_scn(chk, scratch, shard, trim):
-    d = os.path.join(scratch, "scn%d" % shard)
+    d = os.path.join(scratch, "scn%d" % shard, "mod")
     pkgs = bbscn.write_scn(d, chk.REPO)
     os.makedirs(os.path.join(d, "bin"), exist_ok=True)
     names = {".": "root", "sub": "sub", "sub/deep/er": "er"}
